@@ -40,7 +40,7 @@ pub fn child(kv: &std::collections::BTreeMap<String, String>) -> ! {
 fn fresh_processes(ctx: &mut Ctx) {
     if cfg!(miri) { return; }
     let exe = match std::env::current_exe() { Ok(e) => e, Err(e) => { ctx.inconclusive(format!("current_exe: {}", e)); return; } };
-    let n = ctx.size(24, 200);
+    let n = ctx.size(24, 100);
     let mut dup_processes = 0u64;
     for k in 0..n {
         if !ctx.begin_case() { continue; }
@@ -166,7 +166,7 @@ pub fn run(ctx: &mut Ctx) {
     fresh_processes(ctx);
     spellings(ctx);
     stale_files(ctx);
-    let rounds = ctx.size(50, 500);
+    let rounds = ctx.size(50, 150);
     let mut all: HashSet<String> = HashSet::new();
     let mut total_switches = 0u64;
     let mut max_threads = 0usize;
